@@ -16,6 +16,7 @@ fn once(case: &Value, run: &Run) -> Acc {
         "views" => crate::checks::views::replay(case, run),
         "schedule" => crate::checks::purity::replay_schedule(case, run),
         "history" => crate::checks::purity::replay_history(case, run),
+        "update-history" => crate::checks::purity::replay_update_history(case, run),
         "static" => crate::checks::purity::replay_static(case, run),
         "entry-points" => {
             let mut acc = Acc::new();
